@@ -1,9 +1,12 @@
 #include "work.h"
 
+#include <algorithm>
 #include <cmath>
+#include <cstring>
 
 #include "draco/animation/keyframe_animation.h"
 #include "draco/animation/keyframe_animation_encoder.h"
+#include "draco/compression/point_cloud/algorithms/float_points_tree_encoder.h"
 #include "draco/core/encoder_buffer.h"
 #include "draco/mesh/triangle_soup_mesh_builder.h"
 #include "draco/metadata/geometry_metadata.h"
@@ -53,6 +56,7 @@ Json Workload::ToJson() const {
   j["compress_conn"] = compress_conn;
   j["sym_method"] = sym_method;
   j["track"] = track;
+  if (legacy) j["legacy"] = legacy;
   return j;
 }
 
@@ -93,6 +97,7 @@ Workload Workload::FromJson(const Json &j) {
   w.compress_conn = static_cast<int>(j.get("compress_conn").Int(-1));
   w.sym_method = static_cast<int>(j.get("sym_method").Int(-1));
   w.track = static_cast<int>(j.get("track").Int());
+  w.legacy = j.has("legacy") ? static_cast<int>(j.get("legacy").Int()) : 0;
   return w;
 }
 
@@ -788,8 +793,148 @@ void ApplyOptions(const Workload &w, const draco::PointCloud &pc,
   ApplyCommon(w, &enc->options(), 0);
 }
 
+
+// ------------------------------------------------- legacy writer stub -----
+// Older bitstreams are produced by rewriting the container bytes of the
+// current encoder's output (the entropy-coded payloads are unchanged between
+// these versions; only counts, index widths and the place of a few header
+// fields differ), or, for the float kd-tree method, by framing the payload of
+// the library's own FloatPointsTreeEncoder. This is simulator code (a stub
+// standing in for an old encoder); everything that reads the result is real.
+namespace {
+
+bool GetVarint(const std::vector<uint8_t> &b, size_t *pos, uint64_t *v) {
+  *v = 0;
+  for (int shift = 0; shift < 64; shift += 7) {
+    if (*pos >= b.size()) return false;
+    const uint8_t c = b[(*pos)++];
+    *v |= static_cast<uint64_t>(c & 0x7f) << shift;
+    if (!(c & 0x80)) return true;
+  }
+  return false;
+}
+
+void PutU32(std::vector<uint8_t> *o, uint32_t v) {
+  for (int i = 0; i < 4; ++i) o->push_back(static_cast<uint8_t>(v >> (8 * i)));
+}
+
+bool LegacyFail(std::string *err, const char *what) {
+  if (err) *err = std::string("legacy stub: ") + what;
+  return false;
+}
+
+bool DowngradeSequentialMesh(const std::vector<uint8_t> &in,
+                             std::vector<uint8_t> *out, std::string *err) {
+  if (in.size() < 14 || memcmp(in.data(), "DRACO", 5) != 0)
+    return LegacyFail(err, "no header");
+  if (in[5] != 2 || in[6] != 2 || in[7] != 1 || in[8] != 0)
+    return LegacyFail(err, "not a 2.2 sequential mesh");
+  if (in[9] != 0 || in[10] != 0) return LegacyFail(err, "flags set");
+  size_t pos = 11;
+  uint64_t nf, np;
+  if (!GetVarint(in, &pos, &nf) || !GetVarint(in, &pos, &np))
+    return LegacyFail(err, "counts");
+  if (pos >= in.size()) return LegacyFail(err, "short");
+  const uint8_t cm = in[pos++];
+  out->assign(in.begin(), in.begin() + 11);
+  (*out)[6] = 1;
+  PutU32(out, static_cast<uint32_t>(nf));
+  PutU32(out, static_cast<uint32_t>(np));
+  out->push_back(cm);
+  if (cm != 0) {
+    size_t width = np < 256 ? 1 : (np < 65536 ? 2 : (np < (1u << 21) ? 0 : 4));
+    if (width) {
+      if (pos + nf * 3 * width > in.size()) return LegacyFail(err, "indices");
+      out->insert(out->end(), in.begin() + pos, in.begin() + pos + nf * 3 * width);
+      pos += nf * 3 * width;
+    } else {
+      for (uint64_t i = 0; i < nf * 3; ++i) {
+        uint64_t v;
+        if (!GetVarint(in, &pos, &v)) return LegacyFail(err, "varint index");
+        PutU32(out, static_cast<uint32_t>(v));
+      }
+    }
+  }
+  out->insert(out->end(), in.begin() + pos, in.end());
+  return true;
+}
+
+bool DowngradeKdTreeInt(const std::vector<uint8_t> &in,
+                        std::vector<uint8_t> *out, std::string *err) {
+  if (in.size() < 18 || memcmp(in.data(), "DRACO", 5) != 0)
+    return LegacyFail(err, "no header");
+  if (in[5] != 2 || in[6] != 3 || in[7] != 0 || in[8] != 1)
+    return LegacyFail(err, "not a 2.3 kd-tree point cloud");
+  if (in[9] != 0 || in[10] != 0) return LegacyFail(err, "flags set");
+  size_t pos = 11;
+  uint32_t np;
+  memcpy(&np, &in[pos], 4);
+  pos += 4;
+  if (in[pos++] != 1) return LegacyFail(err, "more than one attributes decoder");
+  uint64_t na;
+  if (!GetVarint(in, &pos, &na)) return LegacyFail(err, "attribute count");
+  for (uint64_t a = 0; a < na; ++a) {
+    if (pos + 4 > in.size()) return LegacyFail(err, "descriptor");
+    const uint8_t dt = in[pos + 1];
+    if (dt != draco::DT_UINT8 && dt != draco::DT_UINT16 && dt != draco::DT_UINT32)
+      return LegacyFail(err, "attribute is not an unsigned integer");
+    pos += 4;
+    uint64_t id;
+    if (!GetVarint(in, &pos, &id)) return LegacyFail(err, "unique id");
+  }
+  if (pos >= in.size()) return LegacyFail(err, "short");
+  out->assign(in.begin(), in.begin() + pos);
+  (*out)[6] = 2;
+  out->push_back(1);         // kKdTreeIntegerEncoding
+  out->push_back(in[pos++]);  // compression level
+  PutU32(out, np);
+  out->insert(out->end(), in.begin() + pos, in.end());
+  return true;
+}
+
+bool LegacyKdTreeFloat(const Workload &w, const draco::PointCloud &geom,
+                       std::vector<uint8_t> *out, std::string *err) {
+  const draco::PointAttribute *pa =
+      geom.GetNamedAttribute(GeometryAttribute::POSITION);
+  if (geom.num_attributes() != 1 || !pa ||
+      pa->data_type() != draco::DT_FLOAT32 || pa->num_components() != 3)
+    return LegacyFail(err, "needs exactly one float32x3 position attribute");
+  std::vector<draco::Point3f> pts(geom.num_points());
+  for (draco::PointIndex i(0); i < geom.num_points(); ++i) {
+    float v[3];
+    pa->GetMappedValue(i, v);
+    pts[i.value()] = draco::Point3f(v[0], v[1], v[2]);
+  }
+  const uint32_t qb = w.qb[0] > 0 ? static_cast<uint32_t>(w.qb[0]) : 11;
+  const int speed = w.espeed < 0 ? 5 : w.espeed;
+  const uint32_t level = static_cast<uint32_t>(std::min(10 - speed, 6));
+  draco::FloatPointsTreeEncoder enc(draco::KDTREE, qb, level);
+  if (!enc.EncodePointCloud(pts.begin(), pts.end()))
+    return LegacyFail(err, "FloatPointsTreeEncoder failed");
+  out->clear();
+  const uint8_t hdr[11] = {'D', 'R', 'A', 'C', 'O', 2, 2, 0, 1, 0, 0};
+  out->insert(out->end(), hdr, hdr + 11);
+  PutU32(out, geom.num_points());
+  out->push_back(1);  // attributes decoders
+  out->push_back(1);  // attributes (varint)
+  out->push_back(GeometryAttribute::POSITION);
+  out->push_back(draco::DT_FLOAT32);
+  out->push_back(3);
+  out->push_back(0);
+  out->push_back(static_cast<uint8_t>(pa->unique_id() & 0x7f));
+  out->push_back(0);  // kKdTreeQuantizationEncoding
+  out->push_back(static_cast<uint8_t>(level));
+  PutU32(out, geom.num_points());
+  const uint8_t *d = reinterpret_cast<const uint8_t *>(enc.buffer()->data());
+  out->insert(out->end(), d, d + enc.buffer()->size());
+  return true;
+}
+
+}  // namespace
+
 bool EncodeGeometry(const Workload &w, const draco::PointCloud &geom,
                     std::vector<uint8_t> *out, std::string *err) {
+  if (w.legacy == 3) return LegacyKdTreeFloat(w, geom, out, err);
   draco::EncoderBuffer buf;
   draco::Status st;
   if (w.kind == 2) {
@@ -826,6 +971,12 @@ bool EncodeGeometry(const Workload &w, const draco::PointCloud &geom,
   }
   out->assign(reinterpret_cast<const uint8_t *>(buf.data()),
               reinterpret_cast<const uint8_t *>(buf.data()) + buf.size());
+  if (w.legacy == 1 || w.legacy == 2) {
+    std::vector<uint8_t> cur;
+    cur.swap(*out);
+    return w.legacy == 1 ? DowngradeSequentialMesh(cur, out, err)
+                         : DowngradeKdTreeInt(cur, out, err);
+  }
   return true;
 }
 
